@@ -1,6 +1,6 @@
 SPECIFICATION Spec
 CONSTANTS
-  Shortcut = "none"
+  Shortcut = "lt"
   Lo <- LoDef
   Hi <- LoDef
   Stride = 1
